@@ -40,6 +40,7 @@ RULE += (' Also: probe locks offer locked().')
 RULE += (" Also: deletion by replacing the instance's __dict__.")
 RULE += (' Also: a subclass overriding the cached property and awaiting super().p.')
 RULE += (' Also: getters failing with a BaseException that is no Exception.')
+RULE += (' Also: host classes with customised attribute reads (__getattribute__ handing out stand-ins).')
 ASSUMPTIONS = ["awaiting a handle taken while a value was cached returns that value (unspecified after del; accepted)",
                "the getter's own suspensions are the only scheduling points besides lock waits"]
 EXHAUSTIVE_SUBSPACES = 'all operation sequences of length <= 5 (thorough: 6) over 7 operations; DFS-complete schedule sets for the scenarios counted in scenarios_explored_exhaustively'
@@ -69,6 +70,9 @@ def cases(tier, seed, shard, nshards):
     rng = random.Random(f"C12-{seed}-{shard}")
     for _ in range(N_SEQ_RANDOM[tier] // nshards):
         yield {"kind": "seq", "ops": [rng.choice(SEQ_OPS) for _ in range(rng.randint(6, 15))], "lock": rng.random() < 0.5,
+               # (a host class whose attribute READS are customised: the property keeps reading its own state from
+               # the instance's __dict__, not through the class's attribute access)
+               "traced_reads": rng.random() < 0.2,
                "exc": rng.choice(PLANNED_NAMES), "falsy": rng.choice([None, None, "none", "zero", "false", "empty", "opaque", "awaitable"])}
     n = max(1, N_SCEN[tier] // nshards)
     for i in range(n):
@@ -85,13 +89,32 @@ def cases(tier, seed, shard, nshards):
                "cancel_task": rng.randrange(nt) if rng.random() < 0.4 else None,
                "lock_susp": rng.choice([[0, 0], [0, 0], [1, 0], [0, 1]]),
                "runs": DFS_LIMIT[tier] if mode == "dfs" else RANDOM_RUNS[tier], "seed": rng.randrange(1 << 30),
-               "exc": rng.choice(PLANNED_NAMES), "global_lock": rng.random() < 0.3}
+               "exc": rng.choice(PLANNED_NAMES), "global_lock": rng.random() < 0.3, "traced_reads": rng.random() < 0.15}
 
 
 from ..tools import Opaque, AwaitablePayload  # noqa: E402
 
 AWAITABLE_VALUE = AwaitablePayload("value")  # a property value that happens to be awaitable: payload, never awaited
 OPAQUE = Opaque("value")  # a property value that refuses to be inspected (no truth value, equality, hash)
+
+
+class _Traced:
+    """What a host with traced attribute reads hands out for an awaitable attribute: a transparent stand-in."""
+
+    def __init__(self, inner):
+        self.inner = inner
+
+    def __await__(self):
+        return self.inner.__await__()
+
+
+def _traced_reads(self, name):
+    # a host class that customises attribute READS (tracing, access control, lazy proxies): whoever reads ``inst.p`` -
+    # the user or anybody else going through attribute access - gets a stand-in, never the raw entry of __dict__
+    value = object.__getattribute__(self, name)
+    if name == "p" and hasattr(type(value), "__await__"):
+        return _Traced(value)
+    return value
 
 
 def _planned(case):
@@ -132,7 +155,8 @@ def run_seq(case, stats):
         raise AttributeError(f"cannot assign to field {name!r}")
 
     K = type("K", (), {"p": prop, "__init__": lambda self, tag: self.__dict__.__setitem__("tag", tag),
-                       "__bool__": lambda self: False, "__len__": lambda self: 0, "__setattr__": _frozen})
+                       "__bool__": lambda self: False, "__len__": lambda self: 0, "__setattr__": _frozen,
+                       **({"__getattribute__": _traced_reads} if case.get("traced_reads") else {})})
     prop.__set_name__(K, "p")
     inst = [K(0), K(1)]
     slot = ["absent", "absent"]  # "absent" | "placeholder" | ("value", v)
@@ -319,7 +343,8 @@ def execute(case, choose, cancel_at=None):
     def _frozen(self, name, value):
         raise AttributeError(f"cannot assign to field {name!r}")
 
-    K = type("K", (), {"p": prop, "__bool__": lambda self: False, "__len__": lambda self: 0, "__setattr__": _frozen})
+    K = type("K", (), {"p": prop, "__bool__": lambda self: False, "__len__": lambda self: 0, "__setattr__": _frozen,
+                       **({"__getattribute__": _traced_reads} if case.get("traced_reads") else {})})
     prop.__set_name__(K, "p")
     inst = K()
     stored = inst.p if "stored" in case["awaiters"] else None
